@@ -1,4 +1,5 @@
 // @append src/track/send.rs
+// @requires kv_param_peek.rs
 // helper (no harness)
 impl SendTrack {
 	pub(crate) fn kv_new(volume: Decibels, internal_buffer_size: usize) -> Self {
